@@ -550,6 +550,27 @@ func clampedToLen(v ssa.Value, seen map[ssa.Value]bool) bool {
 			return all && n > 0
 		}
 		return false
+	case *ssa.Extract:
+		if call, ok := x.Tuple.(*ssa.Call); ok {
+			if cal := call.Common().StaticCallee(); cal != nil && inModule(cal) && cal.Blocks != nil {
+				all, n := true, 0
+				for _, b := range cal.Blocks {
+					for _, ins := range b.Instrs {
+						if r, ok := ins.(*ssa.Return); ok && x.Index < len(r.Results) {
+							if k, isConst := r.Results[x.Index].(*ssa.Const); isConst && k.Value != nil && k.Int64() == 0 {
+								continue // `return "", 0, false`
+							}
+							n++
+							if !clampedToLen(r.Results[x.Index], seen) {
+								all = false
+							}
+						}
+					}
+				}
+				return all && n > 0
+			}
+		}
+		return false
 	case *ssa.BinOp:
 		// clamp(x) - k, clamp(x) + const within guards: accept subtraction of non-negative values from a clamped value
 		if x.Op == token.SUB {
@@ -604,6 +625,20 @@ func directFromConversion(v ssa.Value, seen map[ssa.Value]bool) bool {
 				for _, ins := range b.Instrs {
 					if r, ok := ins.(*ssa.Return); ok && len(r.Results) > 0 && directFromConversion(r.Results[0], seen) {
 						return true
+					}
+				}
+			}
+		}
+		return false
+	case *ssa.Extract:
+		// one of several results of a module helper (`line, byteCol, ok := cursorLine(content, pos)`)
+		if call, ok := x.Tuple.(*ssa.Call); ok {
+			if cal := call.Common().StaticCallee(); cal != nil && inModule(cal) && cal.Blocks != nil {
+				for _, b := range cal.Blocks {
+					for _, ins := range b.Instrs {
+						if r, ok := ins.(*ssa.Return); ok && x.Index < len(r.Results) && directFromConversion(r.Results[x.Index], seen) {
+							return true
+						}
 					}
 				}
 			}
